@@ -1,6 +1,7 @@
 """C15 — mesh sessions mirrored on both ends; handler data merges without loss.  See DESIGN.md §C15."""
 import itertools
 import os
+import re
 from typing import Optional, Sequence
 
 from crosshair.tracers import NoTracing
@@ -444,6 +445,8 @@ def build_world(nlinks):
     c = FDevice(C, [FInterface("lo0"), FInterface("eth9")])
     for i in range(nlinks):
         a.interfaces.append(FInterface("et%d" % i, B, "xe%d" % i))
+    for i in reversed(range(nlinks)):
+        # the two ends need not enumerate their connected ports in the same order
         b.interfaces.append(FInterface("xe%d" % i, A, "et%d" % i))
     st = FStorage()
     st.devices = [a, b, c]
@@ -551,6 +554,77 @@ def run_exec(order, nlinks, kind, conflict, swap_masks, port_proc, with_indirect
     return ("ok", peers, ifaddrs, sorted(dev.log)), dev
 
 
+def _link_of(ifname, prefix):
+    m = re.match(r"^%s(\d+)(?:\.\d+)?$" % prefix, ifname or "")
+    return int(m.group(1)) if m else None
+
+
+# rules whose two masks match BOTH devices of a pair (the orientation is not fixed): each end applies the rule in both
+# orientations, so whatever the handler makes of (left, right) both ends see the same set of sessions
+def run_sym(who, filt, indirect, svi):
+    from annet.mesh import MeshRulesRegistry, MeshExecutor
+    from annet.mesh.match_args import Left, Right
+    st, a, b, c = build_world(1)
+    reg = MeshRulesRegistry()
+
+    def h(left, right, session):
+        left.addr = "10.%d.%d.0/31" % (left.match.n, right.match.n)
+        right.addr = "10.%d.%d.1/31" % (left.match.n, right.match.n)
+        left.asnum = 65000 + left.match.n
+        right.asnum = 65000 + right.match.n
+        session.families = {"ipv4_unicast"}
+        if indirect:
+            left.ifname = right.ifname = "lo0"
+        elif svi:
+            left.svi = right.svi = 100 + left.match.n
+    args = [Left.n != Right.n] if filt else []
+    if indirect:
+        reg.indirect("{x:[a-z]+}{n}.dc", "{x:[a-z]+}{n}.dc", *args)(h)
+    else:
+        reg.direct("{x:[a-z]+}{n}.dc", "{x:[a-z]+}{n}.dc", *args)(h)
+    dev = {"A": a, "B": b}[who]
+    res = MeshExecutor(reg, st).execute_for(dev)
+    peers = [{"addr": p.addr, "interface": p.interface, "remote_as": int(p.remote_as), "hostname": p.hostname,
+              "local_as": int(p.options.local_as) if p.options and p.options.local_as is not None else None} for p in res.peers]
+    return peers, {i.name: list(i.addrs) for i in dev.interfaces if i.addrs}
+
+
+def check_sym(cs):
+    from ipaddress import ip_interface
+    try:
+        pa, ia = run_sym("A", cs["filt"], cs["indirect"], cs["svi"])
+        pb, ib = run_sym("B", cs["filt"], cs["indirect"], cs["svi"])
+    except Exception as e:  # noqa
+        return False, {"error": repr(e)}, "sym:exception:%s" % type(e).__name__, True
+    pa = [p for p in pa if p["hostname"] == B]
+    pb = [p for p in pb if p["hostname"] == A]
+    own_a = set(str(ip_interface(ad).ip) for v in ia.values() for ad, _ in v)
+    own_b = set(str(ip_interface(ad).ip) for v in ib.values() for ad, _ in v)
+    if not pa or len(pa) != len(pb):
+        return False, {"A": pa, "B": pb}, "sym:peer-count-differs", True
+    for (x, own, other) in [(x, own_b, pb) for x in pa] + [(y, own_a, pa) for y in pb]:
+        if x["addr"] not in own:
+            return False, {"peer": x, "other_end_addresses": sorted(own), "A": pa, "B": pb}, "sym:addr-not-mirrored", True
+        if not any(y["local_as"] == x["remote_as"] and y["remote_as"] == x["local_as"] for y in other):
+            return False, {"peer": x, "other_end": other}, "sym:as-not-mirrored", True
+    return True, None, None, True
+
+
+SYM = [{"filt": f, "indirect": i, "svi": s_} for f in (False, True) for (i, s_) in ((False, False), (False, True), (True, False))]
+
+
+def h_sym(case: int) -> bool:
+    """
+    pre: 0 <= case < len(SYM)
+    post: _ == True
+    """
+    c = pick(case, len(SYM))
+    with NoTracing():
+        ok, detail, kind, nt = check_sym(SYM[c])
+        rt.record({"sym": c}, ok, [c], detail=detail, fingerprint="C15:exec:%s" % kind)
+    return ok
+
+
 def check_exec(cs):
     from ipaddress import ip_interface
     perms = list(itertools.permutations(range(3)))
@@ -597,6 +671,10 @@ def check_exec(cs):
                 return False, {"A": x, "B": y}, "session-options-differ", True
             if not any(str(ip_interface(ad).ip) == y["addr"] for ad, _ in ra[2].get(x["interface"], [])):
                 return False, {"A": x, "B": y, "A_ifaddrs": ra[2]}, "addr-not-mirrored", True
+            # a session on a physical port / sub-interface sits on the two ends of ONE link
+            la, lb = _link_of(x["interface"], "et"), _link_of(y["interface"], "xe")
+            if len(pa) == 1 and la is not None and lb is not None and la != lb:
+                return False, {"A": x, "B": y}, "session-ends-on-different-links", True
         # 3. interface selection
         want_if = {"port": "et0", "lag": "Trunk1", "subif": "et0.100", "svi": "Vlan10", "lag+subif": "Trunk1.7"}[kind]
         for x in pa:
@@ -741,6 +819,7 @@ def plan(tier):
         dict(name="merge.dict", func="h_merge_dict", shards=1, timeout=200 if q else 900, per_path=60),
         dict(name="template", func="z_templates", kind="py", shards=1, timeout=150 if q else 900),
         dict(name="exec", func="h_exec", shards=16, timeout=280 if q else 1200),
+        dict(name="exec.symmetric", func="h_sym", shards=1, timeout=100),
         dict(name="twin", func="h_twin", shards=1, timeout=100, expect="refuted"),
     ]
 
@@ -766,5 +845,8 @@ def replay(obligation, case):
         a = PeerNameTemplate(t).match(host) is not None
         b = re.fullmatch(ref_template_regex(t), host) is not None
         return {"ok": a == b, "detail": {"template": t, "host": host, "annet": a, "reference": b}, "fingerprint": "C15:template:%s" % t}
+    if "sym" in case:
+        ok, detail, kind, _ = check_sym(SYM[case["sym"]])
+        return {"ok": ok, "detail": detail, "fingerprint": "C15:exec:%s" % kind}
     ok, detail, kind, _ = check_exec(case)
     return {"ok": ok, "detail": detail, "fingerprint": "C15:exec:%s" % kind}
